@@ -289,6 +289,20 @@ def run(case):
         ok, rr = call(out, "pixels2resolution", lambda: cryomap.pixels2resolution(r, n, px, print_out=False))
         if ok:
             out.check(abs(rr - n * px / r) <= 1e-12 * rr, "resolution:pixels2resolution", f"{rr}")
+    # the storage type of the map is not part of the filter: an integer-typed map (raw tomogram, binarised map) gives what
+    # the same numbers stored as floats give
+    if case["seed"] % 3 == 0 and not out.violations:
+        xi = np.round(x * 50).astype([np.int16, np.int32, np.uint8][case["seed"] % 9 // 3]) if case["seed"] % 9 // 3 < 2 else (x > np.median(x)).astype(np.uint8)
+        xf = xi.astype(np.float64)
+        out.label(f"integer_typed_map:{xi.dtype}")
+        for name_, fn_, kw_ in (("lowpass", cryomap.lowpass, {"fourier_pixels": r, "gaussian": s}), ("highpass", cryomap.highpass, {"fourier_pixels": r, "gaussian": s})):
+            ok_i, yi = call(out, name_ + "(integer map)", lambda: fn_(xi.copy(), **kw_))
+            ok_f, yf = call(out, name_, lambda: fn_(xf.copy(), **kw_))
+            if ok_i and ok_f:
+                yi, yf = np.asarray(yi), np.asarray(yf)
+                if out.check(yi.shape == yf.shape, f"{name_}:integer_map_result_shape", f"{yi.shape}"):
+                    e_ = np.abs(yi.astype(np.float64) - yf).max()
+                    out.check(e_ <= 1e-9 * max(1.0, np.abs(yf).max()), f"{name_}:result_depends_on_storage_type_of_the_map", f"{xi.dtype}: max difference {e_}")
     # exact ties of round(box * pixel_size / resolution): with a power-of-two resolution the quotient k + 0.5 is an exact double,
     # so the statement's round() (the language's: ties to the even neighbour) decides them without any tolerance
     n_t, px_t, res_t = [(28, 1.0, 8.0), (20, 1.0, 8.0), (44, 1.0, 8.0), (12, 1.0, 8.0), (36, 1.0, 8.0), (22, 2.0, 8.0), (30, 1.0, 4.0), (10, 2.0, 8.0), (26, 1.0, 4.0), (46, 0.5, 2.0)][case["seed"] % 10]
